@@ -135,7 +135,7 @@ def situation_labels(beh) -> set:
             out.add(f'M:{r["src"]}:{kinds[-1] if kinds else "-"}')
             continue
         out.update(r.get('sit', ()))
-        cur = f'{act}:{r["res"]}'
+        cur = f'{act}:{r.get("res", "ok")}'
         if prev is not None:
             out.add(f'A:{kind}:{prev}>{cur}')
         prev = cur
@@ -147,7 +147,9 @@ def select_covering(behs, num, seed, k=2, prefixes=None):
     pool has that many; shortest behaviour first among equals), then a seeded random fill up to `num` behaviours."""
     import random
     labs = [situation_labels(b) for b in behs]
-    if prefixes:   # only the situations the caller is interested in have to be covered
+    if callable(prefixes):
+        labs = [{x for x in ls if prefixes(x)} for ls in labs]
+    elif prefixes:   # only the situations the caller is interested in have to be covered
         labs = [{x for x in ls if x.startswith(tuple(prefixes))} for ls in labs]
     need = {}
     for ls in labs:
